@@ -424,9 +424,14 @@ def term(v):
     return ("py", repr(v))
 
 
+class ExtError(ValueError):
+    """raised by the external-call stub when the schedule says this call raises"""
+
+
 class Env:
-    def __init__(self, E, cap_ext=8, cap_log=40, concrete=None):
+    def __init__(self, E, cap_ext=8, cap_log=40, concrete=None, raising=False):
         self.E = E
+        self.raising = raising
         self.log = []
         self.count = {}
         self.cap_ext = cap_ext
@@ -442,6 +447,14 @@ class Env:
         self.log.append(("ext", site, tuple(term(a) for a in args)))
         key = f"{site}:{k}"
         self.used.append(key)
+        if self.raising:
+            # an operand that raises: one boolean per (site, dynamic call), shared by both runs
+            if self.concrete is not None:
+                r = bool(self.concrete.get("raise:" + key, False))
+            else:
+                r = self.E.fork(z3.Bool(f"extraise_{site}_{k}"))
+            if r:
+                raise ExtError(key)
         if self.concrete is not None:
             return self.concrete.get(key, 0)
         return SymInt(self.E, z3.Int(f"ext_{site}_{k}"))
@@ -599,6 +612,8 @@ def model_inputs(E, argvars, envs):
         for key in env.used:
             site, k = key.split(":")
             ext[key] = m.eval(z3.Int(f"ext_{site}_{k}"), model_completion=True).as_long()
+            if env.raising:
+                ext["raise:" + key] = bool(z3.is_true(m.eval(z3.Bool(f"extraise_{site}_{k}"), model_completion=True)))
     return {"args": d, "ext": ext}
 
 
